@@ -334,22 +334,26 @@ func runAPI(t *testing.T, rc *core.RunCtx) {
 						return k
 					}
 					if asked(w.peers[0]) == 0 {
-						var holder *SimPeer
-						holders := 0
+						// The call's 30-second budget holds four attempts
+						// (2, 4, 8 and 16 seconds): did all of them go to
+						// nodes that do not serve this block truthfully?
+						total, liarsOnly := 0, true
 						for _, p := range w.peers[1:] {
-							if asked(p) > 0 {
-								holder = p
-								holders++
+							k := asked(p)
+							if k == 0 {
+								continue
+							}
+							total += k
+							kind := p.beh.BlockLieAll
+							if kk, ok := p.beh.BlockLie[c.blk.Hash]; ok {
+								kind = kk
+							}
+							if kind == blkHonest {
+								liarsOnly = false
 							}
 						}
-						if holders == 1 && asked(holder) >= 4 && holder.servedOK >= 3 {
-							kind := holder.beh.BlockLieAll
-							if k, ok := holder.beh.BlockLie[c.blk.Hash]; ok {
-								kind = k
-							}
-							if kind == blkSilent {
-								why = "every-retry-went-to-one-silent-peer-that-had-earned-a-good-rank"
-							}
+						if total >= 4 && liarsOnly {
+							why = "all-four-attempts-the-budget-allows-went-to-silent-or-lying-peers"
 						}
 					}
 					rc.Failf("block-request-not-retried-with-honest-peer", map[string]string{"why": why},
